@@ -359,6 +359,11 @@ def check_candle_geometry_pure(prop: str, res: Result, repo: Repo):
         if m is None:
             res.errors.append(f"anchor vanished: Candle.{nm}")
             continue
+        decos = [ast.unparse(d) for d in m.node.decorator_list]
+        memo = [d for d in decos if any(k in d for k in ("cached_property", "lru_cache", "cache"))]
+        if memo:
+            res.fail(rule, finding(prop, rule, m, m.node, f"Candle.{nm} is memoised (@{memo[0]}): the value computed from the bucket's first prices is kept while Candle.merge / a conversion rewrites the prices, so live and batch results differ", construct=f"Candle.{nm}: @{memo[0]}"))
+            continue
         if not eff.effect(m):
             res.ok(rule, {"entry": f"Candle.{nm}", "effect_set": []}, nontrivial=f"Candle.{nm}")
         else:
